@@ -1,6 +1,7 @@
 """Per-property configuration of ./check (Lean modules, correspondence suites, trusted base)."""
 
 KERNEL = "Lean 4.33.0 kernel; axioms propext, Classical.choice, Quot.sound only (audited per theorem with #print axioms); no sorry/admit/native_decide/bv_decide (grep)"
+GENCHECK = "gencheck: code regenerated from /repo's working tree by the generator linked into the harness, compiled in a scratch module with a glue file derived from the generated sources (go/ast over oas_unimplemented_gen.go / oas_security_gen.go) and driven over a JSON line protocol (harness/internal/gc, harness/gcrt)"
 HARNESS = "the Go correspondence harness (/verif/harness: generators, canonicalisation, independent reference oracles) and the Lean line-protocol driver (lean/Main.lean)"
 
 PROPS = {
@@ -55,12 +56,12 @@ PROPS["C06"] = {
     "lean_modules": ["Ogen.Props.C06"],
     "suites": ["c06"],
     "trusted_base": [
-        KERNEL, HARNESS,
+        KERNEL, HARNESS, GENCHECK,
         "statements in lean/Ogen/Props/C06.lean; spec predicates Fits, inKnownClass, CorePath/CoreFlat/CoreQuery, pathWire (Ogen/ParamNeverWrong_proof, PathCoreDelivered_proof, FlatQueryCoreDelivered_proof, PathNeverWrong_proof)",
         "model Codec.* (Ogen/UriCodecLib.lean) is hand-written from uri/*.go; tie = (a) the admission table compared with ogen.Parse+gen.NewGenerator on the whole 168-cell grid, (b) cookieEscapeChars on all 256 bytes, (c) differential run of outcome AND wire through the public uri.New*Encoder/Decoder API for every expressible configuration (also non-admitted ones, where model and code must both panic) over an adversarial value matrix and random byte strings",
         "net/url (PathEscape/PathUnescape, Values.Encode, ParseQuery) and net/http header/cookie handling are modelled, not verified; the style-table clause is proved for the path location (path_style_table) and checked against an independent Go reference serializer (OpenAPI 3.0.3 style examples, RFC 6570 reading of label/explode=false) for all four locations",
     ],
-    "assumptions": ["object field names are distinct (property names of one schema)", "header values travel in-process here; HTTP's OWS trimming (K4) is C01's"],
+    "assumptions": ["object field names are distinct (property names of one schema)", "header values travel in-process in the uri-level runs; the regenerated client/server run of nullable parameters goes through HTTP, where optional-whitespace trimming (K4) applies"],
     "level_text": "full for the model except one carve-out: no_panic for every admitted configuration and value (decoders on arbitrary wire), never_wrong_partial (a decoded value is the encoded one, except W1–W4, refuted as witnesses and recorded as known finding K1), core_delivered for all four locations, path_style_table, delimiter refusal, cookie_inverse — all for byte strings and collections of any size; model tied to the code exhaustively (admission grid, escape table) and differentially (outcome and wire)",
     "level_note": "trusted: Lean kernel, statements/specs, hand-written model + its ties, net/url and net/http behaviour as modelled, harness. Known finding K1 (W1–W4).",
     "technique": "Lean 4 round-trip theorems (encode → transport → decode) over a byte-level model of the uri codecs; model=code by exhaustive admission grid + differential correspondence of outcomes and wires",
@@ -84,7 +85,6 @@ PROPS["C13"] = {
     "technique": "Lean 4 round-trip theorems for integer/boolean text, parametric in the width; differential tie to conv; implementation-only exhaustive/random round trips for stdlib-backed formats",
 }
 
-GENCHECK = "gencheck: code regenerated from /repo's working tree by the generator linked into the harness, compiled in a scratch module with a glue file derived from the generated sources (go/ast over oas_unimplemented_gen.go / oas_security_gen.go) and driven over a JSON line protocol (harness/internal/gc, harness/gcrt)"
 
 PROPS["C05"] = {
     "lean_modules": ["Ogen.Props.C05"],
